@@ -13,7 +13,7 @@ m = {
     "hooks": {
         "guard": "--cfg redis_rust_verif",
         "enable": "RUSTFLAGS=--cfg redis_rust_verif via /verif/mc/.cargo/config.toml (the harness crate depends on /repo by path, so every check rebuilds the current working tree)",
-        "baseline_off_cmd": "cd /repo && cargo nextest run --workspace --no-fail-fast --offline || cargo test --workspace --no-fail-fast --offline",
+        "baseline_off_cmd": "cd /repo && RUSTC_WRAPPER= CARGO_BUILD_RUSTC_WRAPPER= CARGO_NET_OFFLINE=true cargo nextest run --workspace --no-fail-fast --test-threads 8 --offline",
         "source_commits": hook_commits,
         "add_only": True,
     },
